@@ -603,4 +603,65 @@ inline void queue_unblock_contended(const vf::opts &o, vf::report &R, vf::team &
     }
 }
 
+
+// ---------------------------------------------------------------------------------------------
+// Items whose move empties the source (std::string), pushed as temporaries, as moved lvalues and as plain LVALUES that the producer
+// keeps and pushes again (broadcast of one message variable to several queues / repeated pushes of one variable). Every pop must
+// receive exactly the text the producer's expression had; a plain lvalue argument is the producer's own object and must still hold
+// its text after the call, whether the item was stored or handed straight to a waiting pop.
+template <typename Q> cocls::async<void> qs_popper(Q &q, std::vector<std::string> &got, int &done) {
+    cocls::future<std::string> f = q.pop();
+    bool hv = co_await f.has_value();
+    if (hv) got.push_back(f.value());
+    done++;
+}
+template <bool Limited>
+void queue_string_values(const vf::opts &o, vf::report &R, uint64_t cases) {
+    using Q = std::conditional_t<Limited, cocls::limited_queue<std::string>, cocls::queue<std::string>>;
+    vf::rng master(vf::mix(o.seed, Limited ? 0x10a5 : 0x09a5));
+    const char *scen = Limited ? "lqueue_string_values" : "queue_string_values";
+    for (uint64_t cn = 0; cn < cases && R.nviol() < 5; cn++) {
+        vf::rng r(master.next());
+        vf::set_crash_ctx(R.prop.c_str(), scen, o.seed, cn);
+        std::string err, desc;
+        std::vector<std::string> got, pushed;
+        int done = 0, pops = 0;
+        {
+            std::unique_ptr<Q> q;
+            if constexpr (Limited) q = std::make_unique<Q>(2 + r.below(6)); else q = std::make_unique<Q>();
+            std::string message = "message-" + std::to_string(cn) + "-kept by the producer and pushed again and again, long enough for the heap";
+            int len = 3 + (int)r.below(12);
+            for (int i = 0; i < len && err.empty(); i++) {
+                uint32_t x = r.below(100);
+                if (x < 40) { desc += "pop "; pops++; qs_popper(*q, got, done).detach(); }
+                else if (Limited && (int)pushed.size() - pops >= 2) { desc += "- "; } // never park a producer here (back-pressure is the history check's business)
+                else {
+                    std::string text = message + "#" + std::to_string(i);
+                    if (x < 60) { desc += "push(temporary) "; pushed.push_back(text); (void)q->push(std::string(text)); }
+                    else if (x < 70) { desc += "push(moved lvalue) "; pushed.push_back(text); std::string lv = text; (void)q->push(std::move(lv)); }
+                    else {
+                        desc += "push(lvalue) "; pushed.push_back(message);
+                        (void)q->push(message);
+                        if (message.size() < 40 || message.compare(0, 8, "message-") != 0) err = "push(lvalue) changed the producer's own object (left '" + message.substr(0, 16) + "')";
+                    }
+                }
+            }
+            // drain what is left
+            while (err.empty() && pops < (int)pushed.size()) { pops++; qs_popper(*q, got, done).detach(); }
+        } // queue destroyed: pops still waiting end without a value
+        R.cases++;
+        if (err.empty()) {
+            size_t want = std::min(pushed.size(), (size_t)pops);
+            if (got.size() != want) err = "pops received " + std::to_string(got.size()) + " items, expected " + std::to_string(want);
+            for (size_t k = 0; k < got.size() && k < pushed.size() && err.empty(); k++)
+                if (got[k] != pushed[k]) err = "pop #" + std::to_string(k) + " received '" + got[k].substr(0, 20) + "...' (" + std::to_string(got[k].size()) + " chars) instead of the pushed text (" + std::to_string(pushed[k].size()) + " chars)";
+            if (err.empty() && done != pops) err = "a pop neither received an item nor was cancelled by the destruction of the queue";
+        }
+        if (!err.empty()) { R.violation(std::string("monitor:delivery|") + scen, err, vf::jobj().kv("case", (unsigned long long)cn).kv("seed", (unsigned long long)o.seed).kv("ops", desc).str()); continue; }
+        R.nontrivial_cases++;
+        R.sig(desc);
+        if (R.samples.size() < 2) R.sample(vf::jobj().kv("ops", desc).kv("result", "every pop received exactly the pushed text; lvalue arguments untouched").str());
+    }
+}
+
 } // namespace scn
